@@ -227,6 +227,32 @@ example : let h : List (List Nat × Nat) := [([1, 2, 3, 4], 1), ([5], 2)]
     simp at hc
     rcases hc with ⟨rfl, rfl⟩ | ⟨rfl, rfl⟩ <;> simp [ProperPrefix, List.cons_prefix_cons] at hp
 
+/-- `KeyMapHandler`, the matcher that owns its table and its pending keys.  (a) Feeding keys to a handler is feeding
+    them to `lookup_state` on the handler's table and pending keys, so `C18_matcher_sound`, `C18_matcher_step` and
+    `C18_matcher_any_state` speak about handlers in any state.  (b) `clear()` leaves an empty table and NOTHING
+    pending, whatever the handler held — a half-typed chord included; hence (c) after `clear()` and any
+    registrations, every stream of bound chords and unbound keys is answered as from a brand-new handler: nothing
+    fires except each chord's value exactly at its last key. -/
+theorem C18_handler_clear (hd : Handler V) (hist : List (List Nat × V)) (ks : List Nat) (segs : List Seg)
+    (hok : ∀ s ∈ segs, s.Ok (abs (registerAll (.nil : Map V) hist))) :
+    (Handler.feed hd ks).2 = (feed hd.keymap hd.state ks).2 ∧
+    (hd.clear.keymap = .nil ∧ hd.clear.state = []) ∧
+    expectAll (abs (registerAll (.nil : Map V) hist)) segs
+      (Handler.feed (Handler.registerAll hd.clear hist) (segs.flatMap Seg.keys)).2 ∧
+    (Handler.feed (Handler.registerAll hd.clear hist) (segs.flatMap Seg.keys)).1.keymap = registerAll .nil hist ∧
+    IdleSt (registerAll .nil hist) (Handler.feed (Handler.registerAll hd.clear hist) (segs.flatMap Seg.keys)).1.state := by
+  refine ⟨by rw [Handler.feed_eq], ⟨rfl, rfl⟩, ?_⟩
+  rw [Handler.registerAll_eq, Handler.feed_eq]
+  have := C18_matcher hist segs hok
+  exact ⟨this.1, rfl, this.2⟩
+
+/-- the seeded scenario: `x` of `x s` is pending when `clear()` is called; after re-registering `x s ↦ 10` and
+    `s c ↦ 11`, typing `s c` fires 11 at `c` and nothing at `s` -/
+example : let hd : Handler Nat := (Handler.feed (Handler.registerAll Handler.new [([7, 5], 1)]) [7]).1
+    hd.state = [7] ∧
+    (Handler.feed (Handler.registerAll hd.clear [([7, 5], 10), ([5, 3], 11)]) [5, 3]).2 = [none, some 11] := by
+  decide
+
 /-- What `register` returns (public API): for a non-empty chord on any reachable trie it is `None` exactly when the
     chord's lookup fails, the previously bound value exactly when the chord was bound, and otherwise (the chord was
     a proper prefix of bound chords) the superseded sub-map, which is non-empty, well formed and holds exactly the
